@@ -193,6 +193,8 @@ def _eval(t, model):
         return all(a)
     if op == "or":
         return any(a)
+    if op.startswith("uf_") and op[3:] in tm.UF_IMPL:
+        return tm.UF_IMPL[op[3:]](*a)  # the summarised function itself (the solver's interpretation is not in the model)
     raise ValueError(op)
 
 
@@ -276,6 +278,8 @@ def validation_vectors(prog, o, n=48, seed=0):
     names = list(sym.vars.items())
     vecs = []
     vecs += [dict(v) for v in o.get("native", {}).get("vectors", [])]
+    if o.get("native", {}).get("vectors_only"):
+        return vecs
     tries = 0
     while len(vecs) < n and tries < 50 * n:
         tries += 1
@@ -390,7 +394,19 @@ def run_obligation_one(prop, o, tier, bind):
         ex = Executor(prog, unroll=o.get("unroll", 8), models=_extra_models(o, args) + _models.MODELS, max_paths=o.get("max_paths", 20000))
         ex.const_env = o.get("const_generics", {})
         st = State()
-        paths = ex.run(fn, argvals, st)
+        if o.get("uf_mul"):
+            ex.uf_mul = o["uf_mul"]
+        if o.get("prune"):
+            from . import prune as _prune, execmir as _em
+            _em.PRUNER = _prune.Pruner()
+            st.pc = list(pre)  # the pruner needs the precondition on the path
+        try:
+            paths = ex.run(fn, argvals, st)
+        finally:
+            if o.get("prune"):
+                res["pruning"] = {"queries": _em.PRUNER.queries, "branches_proved_infeasible": _em.PRUNER.pruned, "unknown_kept": _em.PRUNER.unknown}
+                _em.PRUNER.close()
+                _em.PRUNER = None
     except Unsupported as e:
         res.update(verdict="unsupported", detail=f"translator does not support: {e}", seconds=time.time() - t0)
         return res
@@ -479,9 +495,36 @@ def run_obligation_one(prop, o, tier, bind):
     res["sample"] = {"obligation": o["name"], "engine": "mir2smt", "bound": o.get("bound", ""),
                      "mir_functions_executed": [h.split("{")[0].strip()[:90] for h in ex.called][:8],
                      "paths": len(paths), "panic_sites_checked": len(ex.obligations), "witness_models": wsamples[:3]}
+    if verdict == "violated" and o.get("realise") and not (bind and bind.get("__realising")):
+        # The query used summaries (uninterpreted functions): the model's values for them need not be the real
+        # functions'. Bind the operands the summaries depend on to the model's values (the summaries then fold
+        # to the real functions' values) and decide the remaining, smaller problem again.
+        attempts = o["realise"] if isinstance(o["realise"][0], (list, tuple)) else [o["realise"]]
+        tried = []
+        for prefixes in attempts:
+            keep = {k: v for k, v in (model or {}).items() if "!" not in k and any(k.startswith(p) for p in prefixes) and not isinstance(v, bool)}
+            b2 = dict(bind or {})
+            b2.update(keep)
+            b2["__realising"] = 1
+            o2 = dict(o)
+            o2["_validated"] = True
+            r2 = run_obligation_one(prop, o2, tier, b2)
+            for k in ("solver_queries", "solver_s"):
+                res[k] = r2[k] = r2.get(k, 0) + res.get(k, 0)
+            r2["obligation"] = o
+            tried.append(f"{len(keep)} operands bound -> {r2['verdict']} {r2.get('detail', '')[:80]}")
+            if r2["verdict"] == "violated":
+                r2["detail"] = "[abstract counterexample realised with the real summarised functions] " + r2.get("detail", "")
+                r2["seconds"] = time.time() - t0
+                return r2
+        res["abstract_counterexample"] = {k: v for k, v in (model or {}).items() if "!" not in k}
+        res["verdict"] = "inconclusive"
+        res["detail"] = ("counterexample found with summarised (uninterpreted) badness could not be realised with the real function at the model's operands "
+                         "(" + "; ".join(tried) + "); no verdict")
+        return res
     if verdict == "violated":
         cex = {k: v for k, v in (model or {}).items() if "!" not in k}
-        cex.update(bind or {})
+        cex.update({k: v for k, v in (bind or {}).items() if not k.startswith("__")})
         res["counterexample"] = cex
         res.update(replay_violation(prop, o, cex, detail))
     return res
@@ -508,9 +551,32 @@ def replay_violation(prop, o, cex, detail):
                 sym0.make(aty, an)
         for name in sym0.vars:
             full.setdefault(name, 0)
+        for k, v in (nat or {}).get("defaults", {}).items():
+            full.setdefault(k, v)
         mine = interpret(prog, o, fn, full)
         rec["mir_interpretation"] = mine
         rec["inputs"] = full
+        if o.get("post") and o.get("build_args") and not o.get("env_models_nondet"):
+            # the post-condition evaluated on the concrete run (summaries fold to the real functions' values)
+            symc = Sym(prog, consts=full)
+            cargs, cvals = o["build_args"](symc, {})
+            exc = Executor(prog, unroll=o.get("unroll", 8) + 64, models=_extra_models(o, cargs) + _models.MODELS)
+            exc.const_env = o.get("const_generics", {})
+            cpaths = exc.run(fn, cvals, State())
+            if len(cpaths) == 1:
+                cs, cret = cpaths[0]
+                ok = o["post"](cargs, cret, cs) if o.get("post_state") else o["post"](cargs, cret)
+                if o.get("pre"):
+                    pr = o["pre"](cargs)
+                    if pr.is_const and not pr.val:
+                        rec["concrete_pre"] = False
+                        json.dump(rec, open(rpath, "w"), indent=1)
+                        return {"verdict": "inconclusive", "replay": rpath, "detail": "the model does not satisfy the precondition when evaluated concretely (artefact of a summary)"}
+                if ok.is_const:
+                    rec["concrete_post_holds"] = bool(ok.val)
+                    if ok.val:
+                        json.dump(rec, open(rpath, "w"), indent=1)
+                        return {"verdict": "inconclusive", "replay": rpath, "detail": "the model does not violate the post-condition when evaluated concretely (artefact of a summary)"}
     except Exception as e:  # noqa
         rec["mir_interpretation_error"] = str(e)[:300]
         json.dump(rec, open(rpath, "w"), indent=1)
